@@ -7,11 +7,19 @@
    var 0 = success, var >= 1 = one distinct error exit each; secrets are registered before RUN,
    outputs ([out] buffers only, never in/out ones) after the inputs have been prepared;
    g_expect = the code the header promises; g_outdoc = 1 only where the header says that the output
-   may be zeroised. */
+   may be zeroised.
+
+   Variants on which the library (tree of 2026-09-26) does not meet the acceptance rule — kept on purpose:
+     pfGen 2          pfokKeypairGen(rng = 0): ERR_BAD_INPUT, header \expect{ERR_BAD_RNG}
+     dsSign 5, 6      dstuSign(privkey = 0 / >= n): ERR_OK and a signature, header \expect{ERR_BAD_PRIVKEY}
+     belsGenMi 5      valid m0, constant generator: ERR_BAD_PUBKEY, header \expect{ERR_BAD_ANG}
+     baCT2 0 failat 1 btokBAuthCTStep2 ignores the result of beltKWPWrap: ERR_OK although the token was not made
+     cvcUnwrap 1-4, 6, 7; cvcVal2 7   *cvc cleared and filled before the certificate is accepted
+     cvcWrap 5        cert body written, then the signature fails (bad private key)
+     smCmdW 2, smRespW 1   plain encoding written to apdu[], then ERR_BAD_LOGIC (counter parity) */
 #ifndef BEE2V_C09_SCEN2_H
 #define BEE2V_C09_SCEN2_H
 #include "bee2/core/apdu.h"
-#include "bee2/core/rng.h"
 #include "bee2/crypto/bign96.h"
 #include "bee2/crypto/btok.h"
 #include "bee2/crypto/dstu.h"
@@ -288,6 +296,892 @@ static err_t s_bignIdVer(int var)
 	return RUN("bignIdVerify", bignIdVerify(PARAMS, OIDDER, OIDLEN, IDHASH, DATA + (var == 7 ? 3 : 0), BUF1, BUF2, BUF3));   /* 7: other message */
 }
 
+/* ------------------------------------------------------------------ pfok (test parameters, l = 638, r = 130, n = 256) */
+static pfok_params PFP[1], PFPBAD[1];
+static unsigned char PFX[17], PFU[17], PFY[80], PFV[80];   /* own long-term / one-time private keys; peer's public keys */
+static int pf_ready;
+static void pf_setup(void)
+{
+	int i;
+	bign_setup();
+	if (pf_ready) return;
+	pfokParamsStd(PFP, 0, "test");
+	for (i = 0; i < 17; ++i) PFX[i] = TAPE[i], PFU[i] = TAPE[32 + i];
+	PFX[16] &= 3; PFU[16] &= 3;
+	memcpy(BUF3, TAPE + 64, 17); BUF3[16] &= 3; pfokPubkeyCalc(PFY, PFP, BUF3);
+	memcpy(BUF3, TAPE + 96, 17); BUF3[16] &= 3; pfokPubkeyCalc(PFV, PFP, BUF3);
+	pf_ready = 1;
+}
+static const pfok_params* pf_bad(void) { memcpy(PFPBAD, PFP, sizeof PFPBAD); PFPBAD->r = 131; return PFPBAD; }
+#define PF_PRE material(); pf_setup(); sec_reset(); out_reset()
+static err_t s_pfGen(int var)
+{
+	err_t code; PF_PRE;
+	sec_add(TAPE, 16, "generated-privkey"); tape_start();
+	out_add(BUF1, 17); out_add(BUF1 + 64, 80);
+	if (var == 0) { g_expect = ERR_OK; return RUN("pfokKeypairGen", pfokKeypairGen(BUF1, BUF1 + 64, PFP, prngEchoStepR, ECHO)); }
+	if (var == 1) { g_expect = ERR_BAD_PARAMS; return RUN("pfokKeypairGen", pfokKeypairGen(BUF1, BUF1 + 64, pf_bad(), prngEchoStepR, ECHO)); }
+	g_expect = ERR_BAD_RNG; return RUN("pfokKeypairGen", pfokKeypairGen(BUF1, BUF1 + 64, PFP, 0, 0));   /* header: \expect{ERR_BAD_RNG} */
+}
+static err_t s_pfPVal(int var)
+{
+	err_t code; PF_PRE;
+	memcpy(BUF2, PFY, 80);
+	if (var == 1) memset(BUF2, 0, 80);
+	if (var == 2) memset(BUF2, 0xFF, 80);
+	g_expect = var == 0 ? ERR_OK : var <= 2 ? ERR_BAD_PUBKEY : ERR_BAD_PARAMS;
+	return RUN("pfokPubkeyVal", pfokPubkeyVal(var == 3 ? pf_bad() : PFP, BUF2));
+}
+static err_t s_pfCalc(int var)
+{
+	err_t code; PF_PRE;
+	memcpy(BUF2, PFX, 17);
+	if (var == 1) BUF2[16] = 0x04;       /* bit 130 set */
+	if (var != 1) sec_add(BUF2, 16, "privkey");
+	out_add(BUF1, 80);
+	g_expect = var == 0 ? ERR_OK : var == 1 ? ERR_BAD_PRIVKEY : ERR_BAD_PARAMS;
+	return RUN("pfokPubkeyCalc", pfokPubkeyCalc(BUF1, var == 2 ? pf_bad() : PFP, BUF2));
+}
+static err_t s_pfDH(int var)
+{
+	err_t code; PF_PRE;
+	memcpy(BUF2, PFX, 17); memcpy(BUF3, PFY, 80);
+	if (var == 1) BUF2[16] = 0xFF;
+	if (var == 2) memset(BUF3, 0, 80);
+	if (var == 3) memset(BUF3, 0xFF, 80);
+	if (var != 1) sec_add(BUF2, 16, "privkey");
+	out_add(BUF1, 32);
+	g_expect = var == 0 ? ERR_OK : var == 1 ? ERR_BAD_PRIVKEY : var <= 3 ? ERR_BAD_PUBKEY : ERR_BAD_PARAMS;
+	return RUN("pfokDH", pfokDH(BUF1, var == 4 ? pf_bad() : PFP, BUF2, BUF3));
+}
+static err_t s_pfMTI(int var)
+{
+	err_t code; PF_PRE;
+	memcpy(BUF2, PFX, 17); memcpy(BUF2 + 32, PFU, 17); memcpy(BUF3, PFY, 80); memcpy(BUF3 + 128, PFV, 80);
+	if (var == 1) BUF2[16] = 0x80;                 /* long-term key too long */
+	if (var == 2) BUF2[32 + 16] = 0x08;            /* one-time key too long */
+	if (var == 3) memset(BUF3, 0, 80);             /* peer's long-term key 0 */
+	if (var == 4) memset(BUF3 + 128, 0xFF, 80);    /* peer's one-time key >= p */
+	if (var != 1) sec_add(BUF2, 16, "privkey");
+	if (var != 2) sec_add(BUF2 + 32, 16, "one-time-privkey");
+	out_add(BUF1, 32);
+	g_expect = var == 0 ? ERR_OK : var <= 2 ? ERR_BAD_PRIVKEY : var <= 4 ? ERR_BAD_PUBKEY : ERR_BAD_PARAMS;
+	return RUN("pfokMTI", pfokMTI(BUF1, var == 5 ? pf_bad() : PFP, BUF2, BUF2 + 32, BUF3, BUF3 + 128));
+}
+static err_t s_pfPrmVal(int var)
+{
+	err_t code; PF_PRE;
+	memcpy(PFPBAD, PFP, sizeof PFPBAD);
+	if (var == 1) PFPBAD->g[0] += 2;        /* pfok_test.c: not a generator */
+	if (var == 2) PFPBAD->p[1] ^= 0x10;     /* p composite */
+	if (var == 3) PFPBAD->n = PFPBAD->l;
+	g_expect = var == 0 ? ERR_OK : ERR_BAD_PARAMS;
+	return RUN("pfokParamsVal", pfokParamsVal(PFPBAD));
+}
+
+/* ------------------------------------------------------------------ g12s (example A.1, l = 256) */
+static g12s_params G12P[1], G12BAD[1];
+static unsigned char G12PUB[64];
+static int g12_ready;
+static void g12_setup(void)
+{
+	bign_setup();
+	if (g12_ready) return;
+	g12sParamsStd(G12P, "1.2.643.2.2.35.0");
+	prngEchoStart(ECHO, PRIV, 32);
+	g12sKeypairGen(BUF3, G12PUB, G12P, prngEchoStepR, ECHO);     /* private key = PRIV */
+	g12_ready = 1;
+}
+static const g12s_params* g12_bad(int after_alloc)
+{
+	memcpy(G12BAD, G12P, sizeof G12BAD);
+	if (after_alloc) memset(G12BAD->a, 0xFF, 32); else G12BAD->l = 384;
+	return G12BAD;
+}
+#define G12_PRE material(); g12_setup(); sec_reset(); out_reset()
+static err_t s_g12Gen(int var)
+{
+	err_t code; G12_PRE;
+	sec_add(TAPE, 32, "generated-privkey"); tape_start();
+	out_add(BUF1, 32); out_add(BUF1 + 64, 64);
+	switch (var)
+	{
+	case 0: g_expect = ERR_OK; return RUN("g12sKeypairGen", g12sKeypairGen(BUF1, BUF1 + 64, G12P, prngEchoStepR, ECHO));
+	case 1: g_expect = ERR_BAD_RNG; return RUN("g12sKeypairGen", g12sKeypairGen(BUF1, BUF1 + 64, G12P, rng_zero, 0));
+	case 2: g_expect = ERR_BAD_RNG; return RUN("g12sKeypairGen", g12sKeypairGen(BUF1, BUF1 + 64, G12P, 0, 0));
+	case 3: g_expect = ERR_BAD_PARAMS; return RUN("g12sKeypairGen", g12sKeypairGen(BUF1, BUF1 + 64, g12_bad(0), prngEchoStepR, ECHO));
+	}
+	g_expect = ERR_BAD_PARAMS; return RUN("g12sKeypairGen", g12sKeypairGen(BUF1, BUF1 + 64, g12_bad(1), prngEchoStepR, ECHO));
+}
+static err_t s_g12Sign(int var)
+{
+	err_t code; G12_PRE;
+	memcpy(BUF2, PRIV, 32);
+	if (var == 1) memset(BUF2, 0, 32);
+	if (var == 2) memset(BUF2, 0xFF, 32);
+	if (var != 1 && var != 2) sec_add(BUF2, 32, "privkey");
+	sec_add(TAPE, 32, "nonce-k"); tape_start();
+	out_add(BUF1, 64);
+	switch (var)
+	{
+	case 0: g_expect = ERR_OK; return RUN("g12sSign", g12sSign(BUF1, G12P, DATA, BUF2, prngEchoStepR, ECHO));
+	case 1: case 2: g_expect = ERR_BAD_PRIVKEY; return RUN("g12sSign", g12sSign(BUF1, G12P, DATA, BUF2, prngEchoStepR, ECHO));
+	case 3: g_expect = ERR_BAD_RNG; return RUN("g12sSign", g12sSign(BUF1, G12P, DATA, BUF2, rng_ff, 0));
+	case 4: g_expect = ERR_BAD_RNG; return RUN("g12sSign", g12sSign(BUF1, G12P, DATA, BUF2, 0, 0));
+	}
+	g_expect = ERR_BAD_PARAMS; return RUN("g12sSign", g12sSign(BUF1, g12_bad(1), DATA, BUF2, prngEchoStepR, ECHO));
+}
+static err_t s_g12Ver(int var)
+{
+	err_t code; G12_PRE;
+	tape_start(); g12sSign(BUF2, G12P, DATA, PRIV, prngEchoStepR, ECHO);
+	memcpy(BUF3, G12PUB, 64);
+	if (var == 1) BUF2[5] ^= 1;                   /* r changed */
+	if (var == 2) memset(BUF2 + 32, 0, 32);       /* s = 0 */
+	if (var == 3) memset(BUF2, 0xFF, 32);         /* r >= q */
+	if (var == 4) BUF3[40] ^= 0x20;               /* key off the curve */
+	if (var == 5) memset(BUF3, 0xFF, 32);         /* x >= p */
+	g_expect = var == 0 ? ERR_OK : var <= 3 || var == 7 ? ERR_BAD_SIG : var <= 5 ? ERR_BAD_PUBKEY : ERR_BAD_PARAMS;
+	return RUN("g12sVerify", g12sVerify(var == 6 ? g12_bad(1) : G12P, DATA + (var == 7 ? 1 : 0), BUF2, BUF3));
+}
+static err_t s_g12PrmVal(int var)
+{
+	err_t code; G12_PRE;
+	memcpy(G12BAD, G12P, sizeof G12BAD);
+	if (var == 1) G12BAD->yP[0] ^= 1;       /* base point off the curve */
+	if (var == 2) G12BAD->q[0] ^= 2;        /* order wrong */
+	if (var == 3) G12BAD->l = 0;
+	g_expect = var == 0 ? ERR_OK : ERR_BAD_PARAMS;
+	return RUN("g12sParamsVal", g12sParamsVal(G12BAD));
+}
+
+/* ------------------------------------------------------------------ dstu (curve over GF(2^163) of example B.1; field and order elements: 21 octets) */
+static dstu_params DSP[1], DSBAD[1];
+static unsigned char DSPRIV[21], DSPUB[42];
+static octet COMBO[256];
+static int ds_ready;
+static void ds_setup(void)
+{
+	bign_setup();
+	if (ds_ready) return;
+	dstuParamsStd(DSP, "1.2.804.2.1.1.1.1.3.1.1.1.2.0");
+	prngEchoStart(ECHO, TAPE + 128, 21);
+	dstuKeypairGen(DSPRIV, DSPUB, DSP, prngEchoStepR, ECHO);
+	ds_ready = 1;
+}
+static const dstu_params* ds_bad(int after_alloc)
+{
+	memcpy(DSBAD, DSP, sizeof DSBAD);
+	if (after_alloc) DSBAD->p[1] = 0; else DSBAD->A = 2;
+	return DSBAD;
+}
+#define DS_PRE material(); ds_setup(); sec_reset(); out_reset()
+static err_t s_dsGen(int var)
+{
+	err_t code; DS_PRE;
+	sec_add(TAPE, 16, "generated-privkey"); tape_start();
+	out_add(BUF1, 21); out_add(BUF1 + 64, 42);
+	switch (var)
+	{
+	case 0: g_expect = ERR_OK; return RUN("dstuKeypairGen", dstuKeypairGen(BUF1, BUF1 + 64, DSP, prngEchoStepR, ECHO));
+	case 1: g_expect = ERR_BAD_RNG; return RUN("dstuKeypairGen", dstuKeypairGen(BUF1, BUF1 + 64, DSP, 0, 0));
+	case 2: g_expect = ERR_BAD_PARAMS; return RUN("dstuKeypairGen", dstuKeypairGen(BUF1, BUF1 + 64, ds_bad(0), prngEchoStepR, ECHO));
+	}
+	g_expect = ERR_BAD_PARAMS; return RUN("dstuKeypairGen", dstuKeypairGen(BUF1, BUF1 + 64, ds_bad(1), prngEchoStepR, ECHO));
+}
+static err_t s_dsSign(int var)
+{
+	err_t code; DS_PRE;
+	memcpy(BUF2, DSPRIV, 21);
+	if (var == 5) memset(BUF2, 0, 21);
+	if (var == 6) memset(BUF2, 0xFF, 21);
+	if (var < 5) sec_add(BUF2, 21, "privkey");
+	sec_add(TAPE + 64, 16, "nonce-e"); prngEchoStart(ECHO, TAPE + 64, 64);
+	out_add(BUF1, 64);
+	switch (var)
+	{
+	case 0: g_expect = ERR_OK; return RUN("dstuSign", dstuSign(BUF1, DSP, 512, DATA, 32, BUF2, prngEchoStepR, ECHO));
+	case 1: g_expect = ERR_BAD_INPUT; return RUN("dstuSign", dstuSign(BUF1, DSP, 504, DATA, 32, BUF2, prngEchoStepR, ECHO));   /* 16 does not divide ld */
+	case 2: g_expect = ERR_BAD_INPUT; return RUN("dstuSign", dstuSign(BUF1, DSP, 320, DATA, 32, BUF2, prngEchoStepR, ECHO));   /* 2 x 163 bits do not fit */
+	case 3: g_expect = ERR_BAD_RNG; return RUN("dstuSign", dstuSign(BUF1, DSP, 512, DATA, 32, BUF2, 0, 0));
+	case 4: g_expect = ERR_BAD_PARAMS; return RUN("dstuSign", dstuSign(BUF1, ds_bad(1), 512, DATA, 32, BUF2, prngEchoStepR, ECHO));
+	}
+	/* 5: privkey = 0, 6: privkey >= n — header: \expect{ERR_BAD_PRIVKEY} */
+	g_expect = ERR_BAD_PRIVKEY; return RUN("dstuSign", dstuSign(BUF1, DSP, 512, DATA, 32, BUF2, prngEchoStepR, ECHO));
+}
+static err_t s_dsVer(int var)
+{
+	err_t code; size_t ld = 512; DS_PRE;
+	prngEchoStart(ECHO, TAPE + 64, 64); dstuSign(BUF2, DSP, 512, DATA, 32, DSPRIV, prngEchoStepR, ECHO);
+	memcpy(BUF3, DSPUB, 42);
+	if (var == 1) BUF2[0] ^= 1;                       /* r changed */
+	if (var == 2) BUF2[30] = 1;                       /* padding of r not zero */
+	if (var == 3) memset(BUF2 + 32, 0xFF, 21);        /* s >= n */
+	if (var == 4) memset(BUF2, 0, 21);                /* r = 0 */
+	if (var == 5) BUF3[3] ^= 0x40;                    /* key off the curve */
+	if (var == 6) BUF3[20] |= 0x80;                   /* x not a field element */
+	if (var == 7) ld = 500;
+	g_expect = var == 0 ? ERR_OK : var <= 4 || var == 9 ? ERR_BAD_SIG : var <= 6 ? ERR_BAD_PUBKEY : var == 7 ? ERR_BAD_INPUT : ERR_BAD_PARAMS;
+	return RUN("dstuVerify", dstuVerify(var == 8 ? ds_bad(1) : DSP, ld, DATA + (var == 9 ? 1 : 0), 32, BUF2, BUF3));
+}
+static err_t s_dsPtGen(int var)
+{
+	err_t code; DS_PRE;
+	prngCOMBOStart(COMBO, 0x9E3779B9u);
+	out_add(BUF1, 42);
+	if (var == 0) { g_expect = ERR_OK; return RUN("dstuPointGen", dstuPointGen(BUF1, DSP, prngCOMBOStepR, COMBO)); }
+	if (var == 1) { g_expect = ERR_BAD_RNG; return RUN("dstuPointGen", dstuPointGen(BUF1, DSP, 0, 0)); }
+	g_expect = ERR_BAD_PARAMS; return RUN("dstuPointGen", dstuPointGen(BUF1, ds_bad(var == 3), prngCOMBOStepR, COMBO));
+}
+static err_t s_dsPtVal(int var)
+{
+	err_t code; DS_PRE;
+	memcpy(BUF3, DSPUB, 42);
+	if (var == 1) BUF3[25] ^= 2;
+	g_expect = var == 0 ? ERR_OK : var == 1 ? ERR_BAD_POINT : ERR_BAD_PARAMS;
+	return RUN("dstuPointVal", dstuPointVal(var == 2 ? ds_bad(1) : DSP, BUF3));
+}
+static err_t s_dsPrmVal(int var)
+{
+	err_t code; DS_PRE;
+	memcpy(DSBAD, DSP, sizeof DSBAD);
+	if (var == 1) DSBAD->P[0] ^= 1;         /* base point off the curve */
+	if (var == 2) DSBAD->n[0] ^= 2;         /* order wrong */
+	if (var == 3) DSBAD->p[0] = 159;
+	g_expect = var == 0 ? ERR_OK : ERR_BAD_PARAMS;
+	return RUN("dstuParamsVal", dstuParamsVal(DSBAD));
+}
+
+/* ------------------------------------------------------------------ stb99 (test parameters, l = 638) */
+static stb99_params S99[1];
+static err_t s_s99Std(int var)
+{
+	err_t code; material(); sec_reset(); out_reset();
+	/* the loader clears *params before it looks the name up (public data, the header is silent about
+	   the state of params after a failure): the output is registered on the success exit only */
+	if (var == 0) { out_add(S99, sizeof S99); g_expect = ERR_OK; return RUN("stb99ParamsStd", stb99ParamsStd(S99, 0, "test")); }
+	g_expect = ERR_FILE_NOT_FOUND; return RUN("stb99ParamsStd", stb99ParamsStd(S99, 0, "1.2.112.0.2.0.1176.2.3.3"));
+}
+static err_t s_s99Val(int var)
+{
+	err_t code; material(); sec_reset(); out_reset();
+	stb99ParamsStd(S99, 0, "test");
+	if (var == 1) S99->d[0] += 2;           /* stb99_test.c: a is not the power of d */
+	if (var == 2) S99->p[1] ^= 0x10;        /* p composite */
+	if (var == 3) S99->q[1] ^= 0x10;        /* q composite */
+	if (var == 4) S99->r += 1;
+	if (var == 5) S99->a[0] ^= 1;
+	g_expect = var == 0 ? ERR_OK : ERR_BAD_PARAMS;
+	return RUN("stb99ParamsVal", stb99ParamsVal(S99));
+}
+
+/* ------------------------------------------------------------------ btok: CV certificates
+   CERT0: self-signed certificate of the authority BYCA0000 (key PRIV), CERT1: certificate of BYCA1000
+   (key PRIV1 = TAPE[0..32)) issued by BYCA0000; all keys on bign-curve256v1 */
+static btok_cvc_t CVC0[1], CVC1[1], CVCX[1], CVCOUT[1];
+static unsigned char CERT0[400], CERT1[400], CERTX[400], PRIV1[32];
+static size_t CERT0_LEN, CERT1_LEN, CERTX_LEN, CNT;
+static const octet DATE_IN[6] = { 2, 2, 0, 8, 0, 1 }, DATE_OUT[6] = { 2, 3, 0, 1, 0, 1 }, DATE_BAD[6] = { 2, 2, 1, 3, 0, 1 };
+static void cvc_fill(btok_cvc_t* c, const char* authority, const char* holder, const char* from, const char* until)
+{
+	memset(c, 0, sizeof *c);
+	strcpy(c->authority, authority); strcpy(c->holder, holder);
+	hexTo(c->from, from); hexTo(c->until, until);
+	memset(c->hat_eid, 0xEE, 5); memset(c->hat_esign, 0x77, 2);
+}
+static int cvc_ready;
+static void cvc_setup(void)
+{
+	bign_setup();
+	if (!cvc_ready)
+	{
+		memcpy(PRIV1, TAPE, 32);
+		cvc_fill(CVC0, "BYCA0000", "BYCA0000", "020200070007", "090900070007");
+		btokCVCWrap(CERT0, &CERT0_LEN, CVC0, PRIV, 32);
+		cvc_fill(CVC1, "BYCA0000", "BYCA1000", "020200070102", "020201010300");
+		CVC1->pubkey_len = 64; bignPubkeyCalc(CVC1->pubkey, PARAMS, PRIV1);
+		btokCVCIss(CERT1, &CERT1_LEN, CVC1, CERT0, CERT0_LEN, PRIV, 32);
+		cvc_ready = 1;
+	}
+	memcpy(CERTX, CERT1, sizeof CERTX); CERTX_LEN = CERT1_LEN;
+	memcpy(CVCX, CVC1, sizeof CVCX);
+}
+/* offset of the first occurrence of a 3-octet pattern (tag and length of a field) in CERTX */
+static size_t cert_find(octet a, octet b, octet c)
+{
+	size_t i;
+	for (i = 0; i + 3 <= CERTX_LEN; ++i) if (CERTX[i] == a && CERTX[i + 1] == b && CERTX[i + 2] == c) return i + 3;
+	return 0;
+}
+#define CVC_PRE material(); cvc_setup(); sec_reset(); out_reset()
+
+static err_t s_cvcWrap(int var)
+{
+	err_t code; size_t klen = 32; CVC_PRE;
+	memcpy(BUF2, PRIV, 32);
+	cvc_fill(CVCX, "BYCA0000", "BYCA0000", "020200070007", "090900070007");     /* pubkey_len = 0: derived from the private key */
+	g_expect = ERR_OK;
+	if (var == 1) klen = 33, g_expect = ERR_BAD_INPUT;
+	if (var == 2) strcpy(CVCX->holder, "BYCA0"), g_expect = ERR_BAD_NAME;
+	if (var == 3) hexTo(CVCX->from, "090900070008"), g_expect = ERR_BAD_DATE;
+	if (var == 4) memset(BUF2, 0, 32), g_expect = ERR_BAD_PRIVKEY;                               /* fails in the derivation of the public key */
+	if (var == 5) memset(BUF2, 0xFF, 32), memcpy(CVCX->pubkey, PUB, 64), CVCX->pubkey_len = 64, g_expect = ERR_BAD_PRIVKEY;   /* fails in the signature */
+	if (var == 6) memcpy(CVCX->pubkey, PUB, 64), CVCX->pubkey[40] ^= 0x20, CVCX->pubkey_len = 64, g_expect = ERR_BAD_PUBKEY;
+	if (var == 7) CVCX->from[1] = 10, g_expect = ERR_BAD_DATE;
+	if (var != 4 && var != 5) sec_add(BUF2, 32, "privkey");
+	out_add(BUF1, 400); out_add(&CNT, sizeof CNT);
+	return RUN("btokCVCWrap", btokCVCWrap(BUF1, &CNT, CVCX, BUF2, klen));
+}
+static err_t s_cvcUnwrap(int var)
+{
+	err_t code; size_t plen = 64, off; CVC_PRE;
+	memcpy(BUF3, CVC0->pubkey, 64);
+	g_expect = ERR_OK;
+	if (var == 1) CERTX[CERTX_LEN - 5] ^= 1, g_expect = ERR_BAD_SIG;                /* signature changed */
+	if (var == 2) off = cert_find(0x5F, 0x20, 8), CERTX[off] ^= 1, g_expect = ERR_BAD_SIG;      /* holder changed */
+	if (var == 3) BUF3[40] ^= 0x20, g_expect = ERR_BAD_PUBKEY;
+	if (var == 4) CERTX_LEN -= 1, g_expect = ERR_BAD_FORMAT;
+	if (var == 5) plen = 63, g_expect = ERR_BAD_INPUT;
+	if (var == 6) off = cert_find(0x5F, 0x24, 6), CERTX[off] = 1, g_expect = ERR_BAD_DATE;      /* until < from, signature not checked */
+	if (var == 7) plen = 96, g_expect = ERR_BAD_FORMAT;                            /* signature length does not fit the key */
+	out_add(CVCOUT, sizeof CVCOUT);
+	if (var == 6) return RUN("btokCVCUnwrap", btokCVCUnwrap(CVCOUT, CERTX, CERTX_LEN, 0, 0));
+	return RUN("btokCVCUnwrap", btokCVCUnwrap(CVCOUT, CERTX, CERTX_LEN, BUF3, plen));
+}
+/* a certificate for BYCA2000 (key TAPE[32..64)) issued by BYCA1000 (CERT1, PRIV1) */
+static err_t s_cvcIss(int var)
+{
+	err_t code; size_t klen = 32, alen; CVC_PRE;
+	alen = CERT1_LEN;
+	memcpy(BUF2, PRIV1, 32);
+	cvc_fill(CVCX, "BYCA1000", "590082394654", "020200070102", "030901020301");
+	CVCX->pubkey_len = 64; bignPubkeyCalc(CVCX->pubkey, PARAMS, TAPE + 32);
+	g_expect = ERR_OK;
+	if (var == 1) alen -= 1, g_expect = ERR_BAD_FORMAT;
+	if (var == 2) memcpy(BUF2, PRIV, 32), g_expect = ERR_BAD_PUBKEY;                /* not the issuer's key (bignKeypairVal) */
+	if (var == 3) klen = 48, g_expect = ERR_BAD_KEYPAIR;
+	if (var == 4) strcpy(CVCX->authority, "BYCA0000"), g_expect = ERR_BAD_NAME;
+	if (var == 5) hexTo(CVCX->from, "020201010301"), g_expect = ERR_BAD_DATE;       /* starts after the issuer's certificate expires */
+	if (var == 6) CVCX->pubkey[40] ^= 0x20, g_expect = ERR_BAD_PUBKEY;
+	if (var == 7) memset(BUF2, 0, 32), g_expect = ERR_BAD_PRIVKEY;
+	if (var != 7) sec_add(BUF2, 32, "issuer-privkey");
+	out_add(BUF1, 400); out_add(&CNT, sizeof CNT);
+	return RUN("btokCVCIss", btokCVCIss(BUF1, &CNT, CVCX, CERT1, alen, BUF2, klen));
+}
+static err_t s_cvcVal(int var)
+{
+	err_t code; const octet* date = 0; size_t alen; CVC_PRE;
+	alen = CERT0_LEN;
+	g_expect = ERR_OK;
+	if (var == 1) date = DATE_OUT, g_expect = ERR_OUTOFRANGE;
+	if (var == 2) date = DATE_BAD, g_expect = ERR_BAD_DATE;
+	if (var == 3) CERTX[CERTX_LEN - 5] ^= 1, g_expect = ERR_BAD_SIG;
+	if (var == 4) alen -= 2, g_expect = ERR_BAD_FORMAT;
+	if (var == 5) CERTX_LEN -= 1, g_expect = ERR_BAD_FORMAT;
+	if (var == 6) date = DATE_IN;
+	if (var == 7)      /* signed by the authority's key, but issued in another name */
+	{
+		cvc_fill(CVCX, "BYCA9999", "BYCA1000", "020200070102", "020201010300");
+		CVCX->pubkey_len = 64; bignPubkeyCalc(CVCX->pubkey, PARAMS, PRIV1);
+		btokCVCWrap(CERTX, &CERTX_LEN, CVCX, PRIV, 32);
+		g_expect = ERR_BAD_NAME;
+	}
+	return RUN("btokCVCVal", btokCVCVal(CERTX, CERTX_LEN, CERT0, alen, date));
+}
+static err_t s_cvcVal2(int var)
+{
+	err_t code; const octet* date = 0; btok_cvc_t* out = CVCOUT; CVC_PRE;
+	memcpy(CVCX, CVC0, sizeof CVCX);      /* issuer's content */
+	g_expect = ERR_OK;
+	if (var == 1) out = 0;                                                          /* content not wanted: own blob */
+	if (var == 2) out = 0, CERTX[CERTX_LEN - 5] ^= 1, g_expect = ERR_BAD_SIG;
+	if (var == 3) out = 0, date = DATE_OUT, g_expect = ERR_OUTOFRANGE;
+	if (var == 4) out = 0, date = DATE_BAD, g_expect = ERR_BAD_DATE;
+	if (var == 5) out = 0, strcpy(CVCX->holder, "BYCA0001"), g_expect = ERR_BAD_NAME;
+	if (var == 6) out = 0, hexTo(CVCX->until, "020200070101"), g_expect = ERR_BAD_DATE;   /* issuer expired before cert starts */
+	if (var == 7) CERTX[CERTX_LEN - 5] ^= 1, g_expect = ERR_BAD_SIG;                /* as 2, content wanted */
+	if (out) out_add(CVCOUT, sizeof CVCOUT);
+	return RUN("btokCVCVal2", btokCVCVal2(out, CERTX, CERTX_LEN, CVCX, date));
+}
+static err_t s_cvcMatch(int var)
+{
+	err_t code; size_t klen = 32; CVC_PRE;
+	memcpy(BUF2, PRIV1, 32);
+	g_expect = ERR_OK;
+	if (var == 1) memcpy(BUF2, PRIV, 32), g_expect = ERR_BAD_PUBKEY;
+	if (var == 2) klen = 24, g_expect = ERR_BAD_KEYPAIR;
+	if (var == 3) CERTX_LEN -= 1, g_expect = ERR_BAD_FORMAT;
+	if (var == 4) memset(BUF2, 0, 32), g_expect = ERR_BAD_PRIVKEY;
+	if (var != 4) sec_add(BUF2, 32, "privkey");
+	return RUN("btokCVCMatch", btokCVCMatch(CERTX, CERTX_LEN, BUF2, klen));
+}
+
+/* ------------------------------------------------------------------ btok: secure messaging (no allocation; key K32) */
+static size_t SMT[128], SMCT[128], SMCMD[64], SMCMD2[64], SMRESP[64], SMRESP2[64], SMSIZE;
+static octet SMAPDU[128]; static size_t SMAPDU_LEN;
+/* both ends keyed with K32 and advanced to counter value ctr */
+static void sm_setup(int ctr)
+{
+	apdu_cmd_t* cmd = (apdu_cmd_t*)SMCMD; apdu_resp_t* resp = (apdu_resp_t*)SMRESP; int i;
+	material(); sec_reset(); out_reset();
+	btokSMStart(SMT, K32); btokSMStart(SMCT, K32);
+	for (i = 0; i < ctr; ++i) btokSMCtrInc(SMT), btokSMCtrInc(SMCT);
+	memset(SMCMD, 0, sizeof SMCMD); memset(SMRESP, 0, sizeof SMRESP);
+	cmd->cla = 0x00, cmd->ins = 0xA4, cmd->p1 = 0x04, cmd->p2 = 0x04; cmd->cdf_len = 20, cmd->rdf_len = 256;
+	memcpy(cmd->cdf, DATA + 40, 20);
+	resp->sw1 = 0x90, resp->sw2 = 0x00; resp->rdf_len = 20; memcpy(resp->rdf, DATA + 80, 20);
+	sec_add(K32, 32, "sm-key"); sec_add(SMT, 32, "sm-mac-key"); sec_add((octet*)SMT + 32, 32, "sm-enc-key");
+}
+static err_t s_smCmdW(int var)
+{
+	err_t code; apdu_cmd_t* cmd = (apdu_cmd_t*)SMCMD;
+	sm_setup(var == 2 ? 2 : 1);
+	g_expect = ERR_OK;
+	if (var == 1) cmd->cla |= 0x04, g_expect = ERR_BAD_APDU;          /* already protected */
+	if (var == 2) g_expect = ERR_BAD_LOGIC;                            /* even counter */
+	if (var == 3) cmd->rdf_len = 65537, g_expect = ERR_BAD_APDU;
+	out_add(BUF1, 128); out_add(&CNT, sizeof CNT);
+	return RUN("btokSMCmdWrap", btokSMCmdWrap(BUF1, &CNT, cmd, SMT));
+}
+static err_t s_smCmdU(int var)
+{
+	err_t code;
+	sm_setup(1);
+	btokSMCmdWrap(SMAPDU, &SMAPDU_LEN, (apdu_cmd_t*)SMCMD, SMT);
+	g_expect = ERR_OK;
+	if (var == 1) SMAPDU[SMAPDU_LEN - 3] ^= 0x01, g_expect = ERR_BAD_MAC;      /* MAC changed (Le* = 00 is the last octet) */
+	if (var == 2) SMAPDU[9] ^= 0x10, g_expect = ERR_BAD_MAC;                   /* ciphertext changed */
+	if (var == 3) btokSMCtrInc(SMCT), g_expect = ERR_BAD_LOGIC;
+	if (var == 4) SMAPDU[0] &= 0xFB, g_expect = ERR_BAD_APDU;                  /* not marked as protected */
+	if (var == 5) SMAPDU_LEN -= 1, g_expect = ERR_BAD_APDU;
+	if (var == 6) SMAPDU[1] ^= 0x01, g_expect = ERR_BAD_MAC;                   /* header (INS) changed */
+	out_add(SMCMD2, sizeof(apdu_cmd_t) + 20); out_add(&SMSIZE, sizeof SMSIZE);
+	return RUN("btokSMCmdUnwrap", btokSMCmdUnwrap((apdu_cmd_t*)SMCMD2, &SMSIZE, SMAPDU, SMAPDU_LEN, SMCT));
+}
+static err_t s_smRespW(int var)
+{
+	err_t code; apdu_resp_t* resp = (apdu_resp_t*)SMRESP;
+	sm_setup(var == 1 ? 1 : 2);
+	g_expect = ERR_OK;
+	if (var == 1) g_expect = ERR_BAD_LOGIC;                            /* odd counter */
+	if (var == 2) resp->rdf_len = 65537, g_expect = ERR_BAD_APDU;
+	out_add(BUF1, 128); out_add(&CNT, sizeof CNT);
+	return RUN("btokSMRespWrap", btokSMRespWrap(BUF1, &CNT, resp, SMCT));
+}
+static err_t s_smRespU(int var)
+{
+	err_t code;
+	sm_setup(2);
+	btokSMRespWrap(SMAPDU, &SMAPDU_LEN, (apdu_resp_t*)SMRESP, SMCT);
+	g_expect = ERR_OK;
+	if (var == 1) SMAPDU[SMAPDU_LEN - 4] ^= 0x80, g_expect = ERR_BAD_MAC;      /* MAC changed */
+	if (var == 2) SMAPDU[5] ^= 0x01, g_expect = ERR_BAD_MAC;                   /* ciphertext changed */
+	if (var == 3) SMAPDU[SMAPDU_LEN - 1] ^= 0x01, g_expect = ERR_BAD_MAC;      /* SW2 changed */
+	if (var == 4) btokSMCtrInc(SMT), g_expect = ERR_BAD_LOGIC;
+	if (var == 5) SMAPDU_LEN = 11, g_expect = ERR_BAD_APDU;
+	out_add(SMRESP2, sizeof(apdu_resp_t) + 20); out_add(&SMSIZE, sizeof SMSIZE);
+	return RUN("btokSMRespUnwrap", btokSMRespUnwrap((apdu_resp_t*)SMRESP2, &SMSIZE, SMAPDU, SMAPDU_LEN, SMT));
+}
+
+/* ------------------------------------------------------------------ btok: BAUTH (T = terminal, key PRIV; CT = token, key PRIV1)
+   messages: M1 = BUF2[0..96), M2 = BUF2[256..280), M3 = BUF2[512..512+32+72+8) */
+static size_t BAT[2600], BACT[2600];
+static octet BACERTT[72], BACERTCT[72]; static bake_cert BCT[1], BCCT[1]; static bake_settings BST[1], BSCT[1];
+static err_t certval_bad(octet* pubkey, const bign_params* params, const octet* data, size_t len) { return ERR_BAD_CERT; }
+/* runs the protocol up to (excluding) step `upto` (2..5); mism: the token signs with a key that does not
+   match its certificate */
+static err_t bauth_upto(int upto, int kcb, int mism)
+{
+	err_t code;
+	material(); bign_setup(); cvc_setup(); sec_reset(); out_reset();
+	memcpy(BACERTT, "T0000001", 8); memcpy(BACERTT + 8, PUB, 64);
+	memcpy(BACERTCT, "CT000001", 8); bignPubkeyCalc(BACERTCT + 8, PARAMS, PRIV1);
+	BCT->data = BACERTT, BCT->len = 72, BCT->val = certval; BCCT->data = BACERTCT, BCCT->len = 72, BCCT->val = certval;
+	memset(BST, 0, sizeof BST); memset(BSCT, 0, sizeof BSCT);
+	BST->kca = BSCT->kca = TRUE; BST->kcb = BSCT->kcb = kcb;
+	BST->rng = BSCT->rng = prngEchoStepR; BST->rng_state = ECHOA; BSCT->rng_state = ECHOB;
+	prngEchoStart(ECHOA, TAPE + 64, 64); prngEchoStart(ECHOB, TAPE + 128, 64);
+	memset(BUF2, 0, sizeof BUF2);
+	if (sizeof BAT < btokBAuthT_keep(128) || sizeof BACT < btokBAuthCT_keep(128)) return ERR_OUTOFMEMORY;
+	code = btokBAuthTStart(BAT, PARAMS, BST, PRIV, BCT); if (code) return code;
+	code = btokBAuthCTStart(BACT, PARAMS, BSCT, mism ? TAPE + 32 : PRIV1, BCCT); if (code) return code;
+	if (upto <= 2) return ERR_OK;
+	code = btokBAuthCTStep2(BUF2, BCT, BACT); if (code) return code;
+	if (upto <= 3) return ERR_OK;
+	code = btokBAuthTStep3(BUF2 + 256, BUF2, BAT); if (code) return code;
+	if (upto <= 4) return ERR_OK;
+	return btokBAuthCTStep4(BUF2 + 512, BUF2 + 256, BACT);
+}
+static err_t s_baTStart(int var)
+{
+	err_t code; const bign_params* prm;
+	bauth_upto(2, TRUE, 0); prm = PARAMS;
+	sec_add(PRIV, 32, "privkey");
+	g_expect = ERR_OK;
+	if (var == 1) BST->kca = FALSE, g_expect = ERR_BAD_INPUT;
+	if (var == 2) BST->rng = 0, g_expect = ERR_BAD_RNG;
+	if (var == 3) BCT->val = certval_bad, g_expect = ERR_BAD_CERT;
+	if (var == 4) BACERTT[8 + 40] ^= 0x20, g_expect = ERR_BAD_CERT;       /* certified key off the curve */
+	if (var == 5) prm = params_bad(PARAMS, 0), g_expect = ERR_BAD_PARAMS;
+	if (var == 6) prm = params_bad(PARAMS, 1), g_expect = ERR_BAD_PARAMS;
+	return RUN("btokBAuthTStart", btokBAuthTStart(BAT, prm, BST, PRIV, BCT));
+}
+static err_t s_baCTStart(int var)
+{
+	err_t code; const bign_params* prm;
+	bauth_upto(2, TRUE, 0); prm = PARAMS;
+	sec_add(PRIV1, 32, "privkey");
+	g_expect = ERR_OK;
+	if (var == 1) BSCT->kca = FALSE, g_expect = ERR_BAD_INPUT;
+	if (var == 2) BSCT->rng = 0, g_expect = ERR_BAD_RNG;
+	if (var == 3) BCCT->len = 10, g_expect = ERR_BAD_CERT;
+	if (var == 4) BACERTCT[8 + 40] ^= 0x20, g_expect = ERR_BAD_CERT;
+	if (var == 5) prm = params_bad(PARAMS, 1), g_expect = ERR_BAD_PARAMS;
+	return RUN("btokBAuthCTStart", btokBAuthCTStart(BACT, prm, BSCT, PRIV1, BCCT));
+}
+static err_t s_baCT2(int var)
+{
+	err_t code;
+	bauth_upto(2, TRUE, 0);
+	sec_add(PRIV1, 32, "privkey"); sec_add(TAPE + 128, 16, "Rct"); sec_add(TAPE + 128 + 16, 32, "nonce-u");
+	g_expect = ERR_OK;
+	if (var == 1) BCT->val = certval_bad, g_expect = ERR_BAD_CERT;
+	if (var == 2) BACERTT[8 + 40] ^= 0x20, g_expect = ERR_BAD_CERT;
+	if (var == 3) { BSCT->rng = rng_zero; btokBAuthCTStart(BACT, PARAMS, BSCT, PRIV1, BCCT); g_expect = ERR_BAD_RNG; }   /* no one-time key */
+	out_add(BUF1, 96);
+	return RUN("btokBAuthCTStep2", btokBAuthCTStep2(BUF1, BCT, BACT));
+}
+static err_t s_baT3(int var)
+{
+	err_t code;
+	bauth_upto(3, var != 3, 0);
+	sec_add(PRIV, 32, "privkey"); sec_add(TAPE + 128, 16, "Rct");
+	g_expect = ERR_OK;
+	if (var == 1) BUF2[40] ^= 0x20, g_expect = ERR_BAD_POINT;             /* Vct off the curve */
+	if (var == 2) BUF2[70] ^= 0x01, g_expect = ERR_AUTH;                  /* key token changed */
+	out_add(BUF1, 24);
+	return RUN("btokBAuthTStep3", btokBAuthTStep3(BUF1, BUF2, BAT));
+}
+static err_t s_baCT4(int var)
+{
+	err_t code;
+	bauth_upto(4, var != 2, 0);
+	sec_add(PRIV1, 32, "privkey"); sec_add(TAPE + 128, 16, "Rct"); sec_add(TAPE + 128 + 16, 32, "nonce-u");
+	g_expect = ERR_OK;
+	if (var == 1) BUF2[256 + 3] ^= 0x04, g_expect = ERR_AUTH;             /* Tt changed */
+	if (var == 3) BUF2[256 + 10] ^= 0x04, g_expect = ERR_AUTH;            /* Rt changed: other keys, Tt does not verify */
+	out_add(BUF1, 32 + 72 + 8);
+	return RUN("btokBAuthCTStep4", btokBAuthCTStep4(BUF1, BUF2 + 256, BACT));
+}
+static err_t s_baT5(int var)
+{
+	err_t code; size_t len = 32 + 72 + 8; bake_certval_i val = certval;
+	bauth_upto(5, var != 3, var == 5);
+	sec_add(PRIV, 32, "privkey");
+	g_expect = ERR_OK;
+	if (var == 1) BUF2[512 + len - 2] ^= 0x01, g_expect = ERR_AUTH;       /* Tct changed */
+	if (var == 2) val = certval_bad, g_expect = ERR_BAD_CERT;
+	if (var == 3) g_expect = ERR_BAD_LOGIC;                                /* the token is not to be authenticated */
+	if (var == 4) len = 39, g_expect = ERR_BAD_INPUT;
+	if (var == 5) g_expect = ERR_AUTH;                                     /* signature made with another key */
+	if (var == 6) BUF2[512 + 5] ^= 0x01, g_expect = ERR_AUTH;             /* Zct changed */
+	return RUN("btokBAuthTStep5", btokBAuthTStep5(BUF2 + 512, len, val, BAT));
+}
+
+/* ------------------------------------------------------------------ bake: KDF, SWU */
+static err_t s_bakeKDF(int var)
+{
+	err_t code; material(); sec_reset(); out_reset();
+	sec_add(K32, 32, "secret");
+	out_add(BUF1, 32);
+	if (var == 0) { g_expect = ERR_OK; return RUN("bakeKDF", bakeKDF(BUF1, K32, 32, DATA, 64, 1)); }
+	g_expect = ERR_BAD_INPUT; return RUN("bakeKDF", bakeKDF(BUF1, K32, 32, 0, 64, 1));      /* iv absent */
+}
+static err_t s_bakeSWU(int var)
+{
+	err_t code; material(); bign_setup(); sec_reset(); out_reset();
+	out_add(BUF1, 64);
+	if (var == 0) { g_expect = ERR_OK; return RUN("bakeSWU", bakeSWU(BUF1, PARAMS, DATA)); }
+	g_expect = ERR_BAD_PARAMS; return RUN("bakeSWU", bakeSWU(BUF1, params_bad(PARAMS, var == 2), DATA));
+}
+
+/* ------------------------------------------------------------------ bake: BMQV / BPACE Run functions, driven like s_bsts_side
+   (both sides re-run until neither waits for a message; tracking only for the side under test).
+   The side under test talks through a channel that can fail at its k-th read / write or deliver
+   a changed message. */
+static int CH_RFAIL, CH_WFAIL, CH_RCNT, CH_WCNT, CH_XR; static size_t CH_XOFF;
+static err_t fread_t(size_t* read, void* buf, size_t count, void* file)
+{
+	err_t c = fread_(read, buf, count, file);
+	if (c == ERR_FILE_NOT_FOUND) return c;          /* the message has not been sent yet */
+	if (++CH_RCNT == CH_RFAIL) return ERR_FILE_READ;
+	if (CH_RCNT == CH_XR && CH_XOFF < *read) ((octet*)buf)[CH_XOFF] ^= 0x04;
+	return c;
+}
+static err_t fwrite_t(size_t* written, const void* buf, size_t count, void* file)
+{
+	if (++CH_WCNT == CH_WFAIL) return ERR_FILE_WRITE;
+	return fwrite_(written, buf, count, file);
+}
+static const bign_params *BK_PA, *BK_PB; static const octet *BK_PWDA, *BK_PWDB;
+static octet CERTPEER[72]; static bake_cert CPEER[1];       /* the peer's certificate as the side under test sees it */
+#define BK_PWDLEN 12
+static void bake_setup(int which)
+{
+	material(); bign_setup(); sec_reset(); out_reset();
+	memcpy(DA, PRIV, 32); memcpy(DB, TAPE, 32);
+	memcpy(CERTA, "Alice000", 8); memcpy(CERTB, "Bob00000", 8);
+	bignPubkeyCalc(CERTA + 8, PARAMS, DA); bignPubkeyCalc(CERTB + 8, PARAMS, DB);
+	CA->data = CERTA; CA->len = 72; CA->val = certval; CB->data = CERTB; CB->len = 72; CB->val = certval;
+	memset(SA, 0, sizeof SA); memset(SB, 0, sizeof SB);
+	SA->kca = SA->kcb = SB->kca = SB->kcb = TRUE; SA->rng = SB->rng = prngEchoStepR; SA->rng_state = ECHOA; SB->rng_state = ECHOB;
+	memset(MSGS, 0, sizeof MSGS);
+	BK_PA = BK_PB = PARAMS; BK_PWDA = BK_PWDB = DATA + 300;
+	memcpy(CERTPEER, which ? CERTB : CERTA, 72); CPEER->data = CERTPEER; CPEER->len = 72; CPEER->val = certval;
+	CH_RFAIL = CH_WFAIL = CH_XR = 0; CH_XOFF = 0;
+	g_expect = ERR_OK;
+	out_add(which ? KEYA : KEYB, 32);
+}
+static err_t bake_call(int proto, int side, int tested)
+{
+	read_i rd = tested ? fread_t : fread_; write_i wr = tested ? fwrite_t : fwrite_;
+	if (tested) CH_RCNT = CH_WCNT = 0;
+	if (proto == 0)
+		return side ? bakeBMQVRunA(KEYA, BK_PA, SA, DA, CA, tested ? CPEER : CB, rd, wr, FA) : bakeBMQVRunB(KEYB, BK_PB, SB, DB, CB, tested ? CPEER : CA, rd, wr, FB);
+	return side ? bakeBPACERunA(KEYA, BK_PA, SA, BK_PWDA, BK_PWDLEN, rd, wr, FA) : bakeBPACERunB(KEYB, BK_PB, SB, BK_PWDB, BK_PWDLEN, rd, wr, FB);
+}
+static err_t bake_drive(int proto, int which, const char* fn)
+{
+	err_t codea = ERR_FILE_NOT_FOUND, codeb = ERR_FILE_NOT_FOUND; int round;
+	for (round = 0; round < 8 && (codea == ERR_FILE_NOT_FOUND || codeb == ERR_FILE_NOT_FOUND); ++round)
+	{
+		FA->i = FA->offset = FB->i = FB->offset = 0;
+		prngEchoStart(ECHOA, TAPE + 64, 64); prngEchoStart(ECHOB, TAPE + 128, 64);
+		if (which == 0)
+		{
+			track_begin(fn, g_inject); codeb = bake_call(proto, 0, 1); track_end();
+			if (codeb != ERR_FILE_NOT_FOUND) return codeb;
+			codea = bake_call(proto, 1, 0);
+		}
+		else
+		{
+			codeb = bake_call(proto, 0, 0);
+			track_begin(fn, g_inject); codea = bake_call(proto, 1, 1); track_end();
+			if (codea != ERR_FILE_NOT_FOUND) return codea;
+		}
+	}
+	return ERR_FILE_NOT_FOUND;
+}
+/* BMQV.  B: write M1 = Vb, read M2 = Va || Ta, write M3 = Tb.  A: read M1, write M2, read M3. */
+static err_t s_bmqvB(int var)
+{
+	bake_setup(0);
+	sec_add(DB, 32, "privkey"); sec_add(TAPE + 128, 32, "nonce-u");
+	switch (var)
+	{
+	case 1: CH_WFAIL = 1; g_expect = ERR_FILE_WRITE; break;
+	case 2: CH_RFAIL = 1; g_expect = ERR_FILE_READ; break;
+	case 3: CH_WFAIL = 2; g_expect = ERR_FILE_WRITE; break;
+	case 4: CPEER->val = certval_bad; g_expect = ERR_BAD_CERT; break;                 /* peer's certificate rejected */
+	case 5: CERTPEER[8 + 40] ^= 0x20; g_expect = ERR_BAD_CERT; break;                 /* peer's certified key off the curve */
+	case 6: CH_XR = 1; CH_XOFF = 10; g_expect = ERR_BAD_POINT; break;                 /* Va changed */
+	case 7: CH_XR = 1; CH_XOFF = 64 + 2; g_expect = ERR_AUTH; break;                  /* Ta changed */
+	case 8: CB->val = certval_bad; g_expect = ERR_BAD_CERT; break;                    /* own certificate rejected */
+	case 9: SB->rng = 0; g_expect = ERR_BAD_RNG; break;
+	case 10: SB->rng = rng_zero; g_expect = ERR_BAD_RNG; break;
+	case 11: BK_PB = params_bad(PARAMS, 0); g_expect = ERR_BAD_PARAMS; break;
+	case 12: BK_PB = params_bad(PARAMS, 1); g_expect = ERR_BAD_PARAMS; break;
+	}
+	return bake_drive(0, 0, "bakeBMQVRunB");
+}
+static err_t s_bmqvA(int var)
+{
+	bake_setup(1);
+	sec_add(DA, 32, "privkey"); sec_add(TAPE + 64, 32, "nonce-u");
+	switch (var)
+	{
+	case 1: CH_RFAIL = 1; g_expect = ERR_FILE_READ; break;
+	case 2: CH_WFAIL = 1; g_expect = ERR_FILE_WRITE; break;
+	case 3: CH_RFAIL = 2; g_expect = ERR_FILE_READ; break;
+	case 4: CPEER->val = certval_bad; g_expect = ERR_BAD_CERT; break;
+	case 5: CERTPEER[8 + 40] ^= 0x20; g_expect = ERR_BAD_CERT; break;
+	case 6: CH_XR = 1; CH_XOFF = 10; g_expect = ERR_BAD_POINT; break;                 /* Vb changed */
+	case 7: CH_XR = 2; CH_XOFF = 2; g_expect = ERR_AUTH; break;                       /* Tb changed */
+	case 8: CA->val = certval_bad; g_expect = ERR_BAD_CERT; break;
+	case 9: SA->rng = 0; g_expect = ERR_BAD_RNG; break;
+	case 10: SA->rng = rng_zero; g_expect = ERR_BAD_RNG; break;
+	case 11: BK_PA = params_bad(PARAMS, 1); g_expect = ERR_BAD_PARAMS; break;
+	}
+	return bake_drive(0, 1, "bakeBMQVRunA");
+}
+/* BPACE.  B: write M1 = Yb, read M2 = Ya || Va, write M3 = Vb || Tb, read M4 = Ta.  A: read M1, write M2, read M3, write M4. */
+static err_t s_bpaceB(int var)
+{
+	bake_setup(0);
+	sec_add(DATA + 300, BK_PWDLEN, "password"); sec_add(TAPE + 128, 48, "rng-output");
+	switch (var)
+	{
+	case 1: CH_WFAIL = 1; g_expect = ERR_FILE_WRITE; break;
+	case 2: CH_RFAIL = 1; g_expect = ERR_FILE_READ; break;
+	case 3: CH_WFAIL = 2; g_expect = ERR_FILE_WRITE; break;
+	case 4: CH_RFAIL = 2; g_expect = ERR_FILE_READ; break;
+	case 5: BK_PWDA = DATA + 301; SA->kcb = SB->kcb = FALSE; g_expect = ERR_AUTH; break;   /* the peer uses another password: its Ta does not verify */
+	case 6: CH_XR = 1; CH_XOFF = 16 + 10; g_expect = ERR_BAD_POINT; break;            /* Va changed */
+	case 7: CH_XR = 2; CH_XOFF = 2; g_expect = ERR_AUTH; break;                       /* Ta changed */
+	case 8: SB->rng = 0; g_expect = ERR_BAD_RNG; break;
+	case 9: SB->rng = rng_zero; g_expect = ERR_BAD_RNG; break;
+	case 10: BK_PB = params_bad(PARAMS, 0); g_expect = ERR_BAD_PARAMS; break;
+	case 11: BK_PB = params_bad(PARAMS, 1); g_expect = ERR_BAD_PARAMS; break;
+	}
+	return bake_drive(1, 0, "bakeBPACERunB");
+}
+static err_t s_bpaceA(int var)
+{
+	bake_setup(1);
+	sec_add(DATA + 300, BK_PWDLEN, "password"); sec_add(TAPE + 64, 48, "rng-output");
+	switch (var)
+	{
+	case 1: CH_RFAIL = 1; g_expect = ERR_FILE_READ; break;
+	case 2: CH_WFAIL = 1; g_expect = ERR_FILE_WRITE; break;
+	case 3: CH_RFAIL = 2; g_expect = ERR_FILE_READ; break;
+	case 4: CH_WFAIL = 2; g_expect = ERR_FILE_WRITE; break;
+	case 5: BK_PWDB = DATA + 301; g_expect = ERR_AUTH; break;                          /* the peer uses another password: its Tb does not verify */
+	case 6: CH_XR = 2; CH_XOFF = 10; g_expect = ERR_BAD_POINT; break;                 /* Vb changed */
+	case 7: CH_XR = 2; CH_XOFF = 64 + 2; g_expect = ERR_AUTH; break;                  /* Tb changed */
+	case 8: CH_XR = 1; CH_XOFF = 3; g_expect = ERR_AUTH; break;                       /* Yb changed: another Rb */
+	case 9: SA->rng = 0; g_expect = ERR_BAD_RNG; break;
+	case 10: SA->rng = rng_zero; g_expect = ERR_BAD_RNG; break;
+	case 11: BK_PA = params_bad(PARAMS, 1); g_expect = ERR_BAD_PARAMS; break;
+	}
+	return bake_drive(1, 1, "bakeBPACERunA");
+}
+
+/* ------------------------------------------------------------------ bels: public keys (polynomials) */
+static void combo_start(void) { prngCOMBOStart(COMBO, 0x5EED1234u); }
+static err_t s_belsStdM(int var)
+{
+	err_t code; material(); sec_reset(); out_reset();
+	out_add(BUF1, 32);
+	if (var == 0) { g_expect = ERR_OK; return RUN("belsStdM", belsStdM(BUF1, 24, 16)); }
+	g_expect = ERR_BAD_INPUT;
+	if (var == 1) return RUN("belsStdM", belsStdM(BUF1, 20, 1));
+	return RUN("belsStdM", belsStdM(BUF1, 32, 17));
+}
+static err_t s_belsValM(int var)
+{
+	err_t code; material(); sec_reset(); out_reset();
+	belsStdM(BUF2, 32, 5);
+	if (var == 1) BUF2[0] ^= 1;              /* divisible by x */
+	if (var == 2) memset(BUF2, 0, 32);       /* x^256 */
+	g_expect = var == 0 ? ERR_OK : var <= 2 ? ERR_BAD_PUBKEY : ERR_BAD_INPUT;
+	return RUN("belsValM", belsValM(BUF2, var == 3 ? 31 : 32));
+}
+static err_t s_belsGenM0(int var)
+{
+	err_t code; material(); sec_reset(); out_reset(); combo_start();
+	out_add(BUF1, 16);
+	switch (var)
+	{
+	case 0: g_expect = ERR_OK; return RUN("belsGenM0", belsGenM0(BUF1, 16, prngCOMBOStepR, COMBO));
+	case 1: g_expect = ERR_BAD_INPUT; return RUN("belsGenM0", belsGenM0(BUF1, 15, prngCOMBOStepR, COMBO));
+	case 2: g_expect = ERR_BAD_ANG; return RUN("belsGenM0", belsGenM0(BUF1, 16, 0, 0));
+	}
+	g_expect = ERR_BAD_ANG; return RUN("belsGenM0", belsGenM0(BUF1, 16, rng_zero, 0));      /* the same reducible candidate again and again */
+}
+static err_t s_belsGenMi(int var)
+{
+	err_t code; material(); sec_reset(); out_reset(); combo_start();
+	belsStdM(BUF2, 16, 0);
+	if (var == 4) BUF2[0] ^= 1;              /* m0 reducible */
+	out_add(BUF1, 16);
+	switch (var)
+	{
+	case 0: g_expect = ERR_OK; return RUN("belsGenMi", belsGenMi(BUF1, 16, BUF2, prngCOMBOStepR, COMBO));
+	case 1: g_expect = ERR_BAD_INPUT; return RUN("belsGenMi", belsGenMi(BUF1, 33, BUF2, prngCOMBOStepR, COMBO));
+	case 2: g_expect = ERR_BAD_ANG; return RUN("belsGenMi", belsGenMi(BUF1, 16, BUF2, 0, 0));
+	case 3: g_expect = ERR_BAD_ANG; return RUN("belsGenMi", belsGenMi(BUF1, 16, BUF2, ang_x, 0));          /* candidate x: its minimal polynomial is m0 */
+	case 4: g_expect = ERR_BAD_PUBKEY; return RUN("belsGenMi", belsGenMi(BUF1, 16, BUF2, prngCOMBOStepR, COMBO));
+	}
+	/* 5: valid m0, the generator repeats the candidate 0 (minimal polynomial x): header \expect{ERR_BAD_ANG} */
+	g_expect = ERR_BAD_ANG; return RUN("belsGenMi", belsGenMi(BUF1, 16, BUF2, rng_zero, 0));
+}
+static err_t s_belsGenMid(int var)
+{
+	err_t code; material(); sec_reset(); out_reset();
+	belsStdM(BUF2, 16, 0);
+	if (var == 2) BUF2[0] ^= 1;
+	out_add(BUF1, 16);
+	g_expect = var == 0 ? ERR_OK : var == 1 ? ERR_BAD_INPUT : ERR_BAD_PUBKEY;
+	return RUN("belsGenMid", belsGenMid(BUF1, var == 1 ? 8 : 16, BUF2, DATA + 10, 11));
+}
+
+/* ------------------------------------------------------------------ bpki: certificate signing requests (bpki_test.c), containers
+   for private keys of 24, 48 and 64 octets */
+static const char CSR_HEX[] =
+	"3082017A30820134020100305F3115301306035504030C0C524F424552542053"
+	"4D495448310E300C06035504040C05534D495448310F300D060355042A0C0652"
+	"4F42455254311830160603550405130F50415347422D35333333323434323831"
+	"0B3009060355040613024742305D3018060A2A7000020022652D0201060A2A70"
+	"00020022652D0301034100F64CDDFFE4D546EF484471583FAEBA9A38061084E2"
+	"80BF996F90BA6AF0DB6620F59ABAA7AD29D4E7D1CA0C21DD9E32D485F9E74084"
+	"1F4317CA9481503D1F1B50A06F301F06092A864886F70D01090731120C102F49"
+	"4E464F3A65726970323334313233304C06092A864886F70D01090E313F303D30"
+	"170603551D200410300E300C060A2A7000020022654E023D30220603551D1104"
+	"1B30198117726F626572742E736D697468406578616D706C652E756B300D0609"
+	"2A7000020022652D0C050003310082B4F9F934E3FD457F5DF06AE63A88E722E3"
+	"5D35F565551535BA94CEF9243011999DF2159E4F4BAC22AD8C3135A3BD26";
+static unsigned char CSR[382];
+static size_t csr_find(octet a, octet b, octet c)
+{
+	size_t i;
+	for (i = 0; i + 3 <= sizeof CSR; ++i) if (CSR[i] == a && CSR[i + 1] == b && CSR[i + 2] == c) return i + 3;
+	return 0;
+}
+static err_t s_csrRe(int var)
+{
+	err_t code; size_t klen = 32, len = sizeof CSR; material(); bign_setup(); sec_reset(); out_reset();
+	hexTo(CSR, CSR_HEX);
+	memcpy(BUF2, PRIV, 32);
+	g_expect = ERR_OK;
+	if (var == 1) klen = 48, g_expect = ERR_NOT_IMPLEMENTED;
+	if (var == 2) len -= 1, g_expect = ERR_BAD_FORMAT;
+	if (var == 3) memset(BUF2, 0, 32), g_expect = ERR_BAD_PRIVKEY;
+	if (var == 4) CSR[csr_find(0x06, 0x0A, 0x2A) + 8] ^= 1, g_expect = ERR_BAD_FORMAT;      /* not bign-pubkey */
+	if (var != 3) sec_add(BUF2, 32, "privkey");
+	return RUN("bpkiCSRRewrap", bpkiCSRRewrap(CSR, len, BUF2, klen));
+}
+static err_t s_csrUn(int var)
+{
+	err_t code; size_t len = sizeof CSR; material(); sec_reset(); out_reset();
+	hexTo(CSR, CSR_HEX);
+	g_expect = ERR_OK;
+	if (var == 1) CSR[sizeof CSR - 7] ^= 1, g_expect = ERR_BAD_SIG;                         /* signature changed */
+	if (var == 2) CSR[20] ^= 1, g_expect = ERR_BAD_SIG;                                     /* subject changed */
+	if (var == 3) len -= 1, g_expect = ERR_BAD_FORMAT;
+	if (var == 4) CSR[csr_find(0x03, 0x41, 0x00) + 40] ^= 0x20, g_expect = ERR_BAD_PUBKEY;   /* enclosed key off the curve */
+	out_add(BUF1, 64); out_add(&CNT, sizeof CNT);
+	return RUN("bpkiCSRUnwrap", bpkiCSRUnwrap(BUF1, &CNT, CSR, len));
+}
+static const size_t KLEN2[4] = { 24, 48, 64, 40 };
+static err_t s_bpkiPW2(int var)
+{
+	err_t code; size_t n = KLEN2[var]; material(); sec_reset(); out_reset();
+	sec_add(DATA + 400, n, "privkey"); sec_add(DATA + 300, 24, "password");
+	EPKI_LEN = 0; out_add(BUF1, 512);
+	g_expect = var < 3 ? ERR_OK : ERR_BAD_PRIVKEY;
+	return RUN("bpkiPrivkeyWrap", bpkiPrivkeyWrap(BUF1, &EPKI_LEN, DATA + 400, n, DATA + 300, 24, IV16, 10000));
+}
+static err_t s_bpkiPU2(int var)
+{
+	err_t code; size_t n = KLEN2[var % 3], m = 0; material(); sec_reset(); out_reset();
+	bpkiPrivkeyWrap(BUF2, &EPKI_LEN, DATA + 400, n, DATA + 300, 24, IV16, 10000);
+	sec_add(DATA + 400, n, "privkey"); sec_add(DATA + 300, 24, "password");
+	if (var == 4) BUF2[EPKI_LEN - 9] ^= 0x02;       /* encrypted key changed */
+	out_add(BUF1, 64); g_outdoc = 0;
+	g_expect = var < 3 ? ERR_OK : ERR_BAD_KEYTOKEN;
+	return RUN("bpkiPrivkeyUnwrap", bpkiPrivkeyUnwrap(BUF1, &m, BUF2, EPKI_LEN, DATA + (var == 3 ? 301 : 300), 24));
+}
+
 static const scen_t SCEN2[] = {
 	{"b96Gen", "bign96KeypairGen", 5, s_b96Gen}, {"b96KVal", "bign96KeypairVal", 5, s_b96KVal},
 	{"b96Calc", "bign96PubkeyCalc", 5, s_b96Calc}, {"b96PVal", "bign96PubkeyVal", 4, s_b96PVal},
@@ -297,5 +1191,26 @@ static const scen_t SCEN2[] = {
 	{"bignPrmVal", "bignParamsVal", 5, s_bignPrmVal}, {"bignGen2", "bignKeypairGen", 5, s_bignGen2},
 	{"bignIdExt", "bignIdExtract", 6, s_bignIdExt}, {"bignIdSign", "bignIdSign", 6, s_bignIdSign},
 	{"bignIdSign2", "bignIdSign2", 4, s_bignIdSign2}, {"bignIdVer", "bignIdVerify", 8, s_bignIdVer},
+	{"pfGen", "pfokKeypairGen", 3, s_pfGen}, {"pfPVal", "pfokPubkeyVal", 4, s_pfPVal}, {"pfCalc", "pfokPubkeyCalc", 3, s_pfCalc},
+	{"pfDH", "pfokDH", 5, s_pfDH}, {"pfMTI", "pfokMTI", 6, s_pfMTI}, {"pfPrmVal", "pfokParamsVal", 4, s_pfPrmVal},
+	{"g12Gen", "g12sKeypairGen", 5, s_g12Gen}, {"g12Sign", "g12sSign", 6, s_g12Sign}, {"g12Ver", "g12sVerify", 8, s_g12Ver},
+	{"g12PrmVal", "g12sParamsVal", 4, s_g12PrmVal},
+	{"dsGen", "dstuKeypairGen", 4, s_dsGen}, {"dsSign", "dstuSign", 7, s_dsSign}, {"dsVer", "dstuVerify", 10, s_dsVer},
+	{"dsPtGen", "dstuPointGen", 4, s_dsPtGen}, {"dsPtVal", "dstuPointVal", 3, s_dsPtVal}, {"dsPrmVal", "dstuParamsVal", 4, s_dsPrmVal},
+	{"s99Std", "stb99ParamsStd", 2, s_s99Std}, {"s99Val", "stb99ParamsVal", 6, s_s99Val},
+	{"cvcWrap", "btokCVCWrap", 8, s_cvcWrap}, {"cvcUnwrap", "btokCVCUnwrap", 8, s_cvcUnwrap}, {"cvcIss", "btokCVCIss", 8, s_cvcIss},
+	{"cvcVal", "btokCVCVal", 8, s_cvcVal}, {"cvcVal2", "btokCVCVal2", 8, s_cvcVal2}, {"cvcMatch", "btokCVCMatch", 5, s_cvcMatch},
+	{"smCmdW", "btokSMCmdWrap", 4, s_smCmdW}, {"smCmdU", "btokSMCmdUnwrap", 7, s_smCmdU},
+	{"smRespW", "btokSMRespWrap", 3, s_smRespW}, {"smRespU", "btokSMRespUnwrap", 6, s_smRespU},
+	{"baTStart", "btokBAuthTStart", 7, s_baTStart}, {"baCTStart", "btokBAuthCTStart", 6, s_baCTStart},
+	{"baCT2", "btokBAuthCTStep2", 4, s_baCT2}, {"baT3", "btokBAuthTStep3", 4, s_baT3}, {"baCT4", "btokBAuthCTStep4", 4, s_baCT4},
+	{"baT5", "btokBAuthTStep5", 7, s_baT5},
+	{"bakeKDF", "bakeKDF", 2, s_bakeKDF}, {"bakeSWU", "bakeSWU", 3, s_bakeSWU},
+	{"bmqvB", "bakeBMQVRunB", 13, s_bmqvB}, {"bmqvA", "bakeBMQVRunA", 12, s_bmqvA},
+	{"bpaceB", "bakeBPACERunB", 12, s_bpaceB}, {"bpaceA", "bakeBPACERunA", 12, s_bpaceA},
+	{"belsStdM", "belsStdM", 3, s_belsStdM}, {"belsValM", "belsValM", 4, s_belsValM}, {"belsGenM0", "belsGenM0", 4, s_belsGenM0},
+	{"belsGenMi", "belsGenMi", 6, s_belsGenMi}, {"belsGenMid", "belsGenMid", 3, s_belsGenMid},
+	{"csrRe", "bpkiCSRRewrap", 5, s_csrRe}, {"csrUn", "bpkiCSRUnwrap", 5, s_csrUn},
+	{"bpkiPW2", "bpkiPrivkeyWrap", 4, s_bpkiPW2}, {"bpkiPU2", "bpkiPrivkeyUnwrap", 5, s_bpkiPU2},
 };
 #endif
